@@ -211,6 +211,8 @@ pub struct ForeignCsr {
 
 #[derive(Clone, Debug, Serialize, Deserialize, PartialEq, Eq, Hash)]
 pub enum Unsupported {
+	/// basicConstraints with cA FALSE (what a stock `openssl req` configuration asks for)
+	BasicConstraintsFalse,
 	BasicConstraints,
 	NameConstraints,
 	Custom,
@@ -292,6 +294,8 @@ fn foreign_csr() -> BoxedStrategy<ForeignCsr> {
 		prop_oneof![
 			6 => Just(vec![]),
 			1 => Just(vec![Unsupported::BasicConstraints]),
+			1 => Just(vec![Unsupported::BasicConstraintsFalse]),
+			1 => Just(vec![Unsupported::BasicConstraintsFalse, Unsupported::SubjectKeyId]),
 			1 => Just(vec![Unsupported::NameConstraints]),
 			1 => Just(vec![Unsupported::Custom]),
 			1 => Just(vec![Unsupported::UnknownEku]),
@@ -362,6 +366,7 @@ pub fn forge_foreign(f: &ForeignCsr) -> Result<Vec<u8>, String> {
 	for u in &f.unsupported {
 		match u {
 			Unsupported::BasicConstraints => exts.push(forge::enc_ext(x509::OID_BC, true, &der::enc_seq(&[forge::enc_bool(true)]))),
+			Unsupported::BasicConstraintsFalse => exts.push(forge::enc_ext(x509::OID_BC, true, &der::enc_seq(&[]))),
 			Unsupported::NameConstraints => exts.push(forge::enc_ext(
 				x509::OID_NC,
 				true,
